@@ -105,6 +105,15 @@ CHECKS["C14"] = (True, MC, "bounded path search by SMT over the real IR: per fun
     "that asks for a path entry -> use on which the operand's definition has not executed. unsat for all (use, operand) pairs = defined before use on every path.",
     "Trusts z3 and the checker's reading of the VM's control flow (fall-through, nothing after a terminator). Named locals are not operands and are not covered.", "DESIGN.md 5 (C14)")
 
+CHECKS["C05"] = (True, MC, "symbolic execution of the real VM on every accepted member of a whole-language family with symbolic inputs of the declared types (symx + z3): reachability of an internal-error path; compile/link stages checked concretely at both optimisation levels",
+    "Family F5 enumerates the type-level corner cases of the spellable language (13 operators x 14 x 14 operand types, swizzles and indexing on every type, constructors from every argument list up to 3, "
+    "assignments / initialisers / returns / call arguments between all types, compound assignment and ++/-- on every type, missing and void returns, statement corner cases) together with F1-F4. A member is kept "
+    "when the real front end accepts it (stage read from the raising frame). For accepted members lowering, the IR passes at both optimisation settings and linking must succeed, and the real VM is explored "
+    "with symbolic inputs: every path ends normally or in a defined failure (division by zero, IndexError of a subscript with a non-constant index) for all inputs of its path condition; a path "
+    "ending in any other exception yields a z3 witness that is replayed concretely.",
+    "Trusts z3 and the proxy model (every reported failure is replayed on concrete values; VM.py is scanned for exact-type tests that proxies would mask). Crashes of the front end itself are counted, not claimed.",
+    "DESIGN.md 5 (C05)")
+
 NOT_YET = "check not built yet in this round (see DESIGN.md status); nothing is claimed"
 NA = {
     "C18": "quantifies over hash seeds, processes and compilation histories: none of these is a value flowing through the code, so there is no assertion over symbolic variables for a solver to decide (DESIGN.md section 6)",
